@@ -220,6 +220,21 @@ func c18mutants(g c18cfg) []c18mut {
 		m.Watchers[w] = "ghost-task"
 		ms = append(ms, c18mut{"watcher-task", m, w + ".task"})
 	}
+	{
+		// several well-formed watchers and one whose task does not exist
+		m := g.clone()
+		for k := 0; k < 5; k++ {
+			m.Watchers[fmt.Sprintf("extra%d", k)] = g.Tasks[k%len(g.Tasks)]
+		}
+		m.Watchers["extra2"] = "ghost-task"
+		ms = append(ms, c18mut{"watcher-task", m, "extra2.task among five more watchers"})
+	}
+	{
+		// no task is defined at all (the tasks live in a file that was not imported): every task reference dangles
+		m := g.clone()
+		m.Tasks = nil
+		ms = append(ms, c18mut{"stage-task", m, "the configuration defines no tasks at all"})
+	}
 	// duplicate names that arise from derived names: two unnamed stages of the same task / pipeline,
 	// and an explicit name equal to a later unnamed stage's task
 	for _, p := range g.Order {
@@ -358,6 +373,20 @@ func c18(c *h.Ctx) {
 		res := tc{Dir: dir, Timeout: 15 * time.Second}.run(c, "-c", f, "list")
 		val := tc{Dir: dir, Timeout: 15 * time.Second}.run(c, "validate", f)
 		c.Eval(2)
+		if res.TimedOut || val.TimedOut {
+			again := 0
+			for k := 0; k < 3; k++ {
+				if (tc{Dir: dir, Timeout: 15 * time.Second}).run(c, "-c", f, "list").TimedOut {
+					again++
+				}
+			}
+			if again == 3 {
+				c.Violate("load-does-not-terminate/"+j.kind, fmt.Sprintf("loading a configuration (%s: %s) did not finish within 15 s (four times): neither accepted nor rejected", j.kind, j.desc), cas)
+			} else {
+				c.Inconclusive("watchdog fired once while loading")
+			}
+			return
+		}
 		for _, r := range []h.ProcResult{res, val} {
 			if crashed, how := r.Crashed(); crashed {
 				c.Violate("cli-crash/"+h.TopFrame(string(r.Stderr)), "taskctl died while loading: "+how, cas)
